@@ -115,6 +115,19 @@ func (x *fx) parseTypeString(s string, pkg *types.Package) types.Type {
 		fmt.Sscanf(s[1:i], "%d", &n)
 		return types.NewArray(x.parseTypeString(s[i+1:], pkg), n)
 	}
+	if i := strings.Index(s, "["); i > 0 && strings.HasSuffix(s, "]") && !strings.Contains(s[:i], ".") {
+		// instantiated generic type: Name[T1, T2]
+		if obj := pkg.Scope().Lookup(s[:i]); obj != nil {
+			var targs []types.Type
+			for _, a := range splitTop(s[i+1 : len(s)-1]) {
+				targs = append(targs, x.parseTypeString(a, pkg))
+			}
+			if t, err := types.Instantiate(nil, obj.Type(), targs, false); err == nil {
+				return t
+			}
+		}
+		panic(specErr("unknown generic type " + s))
+	}
 	if pk, name, ok := strings.Cut(s, "."); ok {
 		for _, imp := range pkg.Imports() {
 			if imp.Name() == pk {
@@ -697,14 +710,16 @@ func (x *fx) refAsIdx(ref string) string {
 
 // pureMethod: recv.M(args) as an uninterpreted function of (recv, args).
 func (x *fx) pureMethod(recv *Val, name string, args []*Val, m *memNode) *Val {
-	ms := types.NewMethodSet(recv.T)
-	sel := ms.Lookup(nil, name)
-	if sel == nil {
-		// unexported: search by name
+	var sel *types.Selection
+	for _, rt := range []types.Type{recv.T, types.NewPointer(recv.T)} {
+		ms := types.NewMethodSet(rt)
 		for i := 0; i < ms.Len(); i++ {
 			if ms.At(i).Obj().Name() == name {
 				sel = ms.At(i)
 			}
+		}
+		if sel != nil {
+			break
 		}
 	}
 	if sel == nil {
